@@ -676,6 +676,18 @@ package wire
 //@     invariant [window] Advanced(reader.Msg, old(reader.Msg)) || arr(reader.Msg) > old(#alloc)
 //@     decreases len(statements) - $index
 
+//@ func (*Session).extendedError
+//@   props C06 C02 C17 C04
+//@   requires srv != nil && WriterReady(writer)
+//@   requires [nulfree-text] {C02 C17} err != nil ==> ErrTextOK(err)
+//@   ensures [E-only] result == nil ==> (#nE == old(#nE) + 1 && #nZ == old(#nZ) && #nOut == old(#nOut) + 1 && #last == 'E' && #cyc == cycStep(old(#cyc), 'E') && #failed == old(#failed))
+//@   ensures [failed] result != nil ==> (#failed && #nZ == old(#nZ) && old(#nE) <= #nE && #nE <= old(#nE) + 1 && old(#nOut) <= #nOut && #nOut <= old(#nOut) + 1)
+//@   ensures [starts-discard] {C06} srv.discard
+//@   ensures [fail-stop] old(#failed) ==> result != nil
+//@   ensures [err-kind] result != nil ==> SinkErr(result)
+//@   ensures [writer-reset] writer.err == nil && writer.frame.#blen == 0
+//@   modifies WriterState(writer), Out(), srv.discard
+
 //@ func (*Session).handleParse
 //@   props C06 C07 C02 C04
 //@   requires HOK(srv, reader, writer, ctx)
